@@ -124,7 +124,7 @@ EndErr(code) ==
      rphash |-> "none", sigkey |-> "none", at |-> FALSE, ed |-> FALSE, idlen |-> 0,
      cose |-> NoCose, stored |-> NoCred, prfEnabled |-> "absent", prf1 |-> NoPrf, prf2 |-> NoPrf,
      \* observation-only fields: what the relying-party role reports about the bytes
-     wf |-> TRUE, attid |-> "none", fresh |-> TRUE, keymatch |-> FALSE, fmt |-> "none",
+     wf |-> TRUE, attid |-> "none", fresh |-> TRUE, keymatch |-> FALSE, fmt |-> "none", digest |-> "none",
      client |-> [present |-> FALSE], leaks |-> <<>>]
 
 \* flag names in bit order, as the relying-party role lists them (BE and BS are always set by the library)
@@ -344,7 +344,14 @@ GaStep(cfg, cer, store, nnew) ==
            IF cer.serr # 0 THEN Ended(cer, store, nnew, EndErr(cer.serr))
            ELSE GaSign(cfg, cer, store, nnew, cer.found)
 
+(* authenticatorGetInfo: one capability query of the store, then the response *)
+InfoOpStep(cfg, cer, store, nnew) ==
+    CASE cer.pc = "begin" -> InfoStep(cfg, cer, store, nnew, "info.done")
+      [] cer.pc = "info.done" -> Ended(cer, store, nnew, [EndErr(0) EXCEPT !.ok = TRUE])
+
 Step(cfg, cer, store, nnew) ==
-    IF cer.op = "mc" THEN McStep(cfg, cer, store, nnew) ELSE GaStep(cfg, cer, store, nnew)
+    CASE cer.op = "mc" -> McStep(cfg, cer, store, nnew)
+      [] cer.op = "ga" -> GaStep(cfg, cer, store, nnew)
+      [] cer.op = "info" -> InfoOpStep(cfg, cer, store, nnew)
 
 =============================================================================
